@@ -269,6 +269,25 @@ impl Session {
                 self.dev.borrow_mut().poke(0, &data);
                 Ok(Res::Ok(String::new()))
             }
+            "pokehint" => {
+                // pokehint <delta>|none : FAT32 FS-info next-free hint := (last valid cluster number) + delta
+                let mut bs = [0u8; 512];
+                self.dev.borrow().peek(0, &mut bs);
+                let le16 = |o: usize| u64::from(bs[o]) | (u64::from(bs[o + 1]) << 8);
+                let le32 = |o: usize| le16(o) | (le16(o + 2) << 16);
+                let bps = le16(11);
+                let spc = u64::from(bs[13]);
+                let spf = if le16(22) != 0 { le16(22) } else { le32(36) };
+                let ts = if le16(19) != 0 { le16(19) } else { le32(32) };
+                let root_secs = (le16(17) * 32 + bps - 1) / bps;
+                let first_data = le16(14) + u64::from(bs[16]) * spf + root_secs;
+                let clusters = (ts - first_data) / spc;
+                let last = clusters + 1;
+                let v: u32 = if arg(1)? == "none" { 0xFFFF_FFFF } else { (last as i64 + arg(1)?.parse::<i64>().map_err(|_| "bad delta")?) as u32 };
+                let fsi = le16(48) * bps;
+                self.dev.borrow_mut().poke(fsi + 492, &v.to_le_bytes());
+                Ok(Res::Ok(format!("{} {} {}", v, clusters, first_data * bps)))
+            }
             "dump" => {
                 let off = num(1)?;
                 let len = num(2)? as usize;
